@@ -54,6 +54,19 @@ STRENGTHENED = {
     'C01_7': 'pre-emptive: the simulated queue honours maxsize (a put on a full queue parks the caller; in reception context it is reported as a hang)',
     'C13_5': 'caught by C01 (two CAs of one stack sending to the same destination), not by C13 itself',
     'C10_5': 'caught by C02, not by C10 itself',
+    # ---- round 4 (one agent per kind of mistake)
+    'C10_7': 'missed at first, and the renamed private pool lists broke the idle oracle (exit code 2): needs the application thread suspended inside the session-number allocator while the job thread releases a number; caught by C02 since application calls can be parked at a source line (Sim.call_in_thread); pool inspection is now optional',
+    'C02_7': 'missed at first (needs the application thread suspended inside send_pgn between storing the broadcast session and sending its announcement); caught since application calls can be parked at a source line',
+    'C12_6': 'needs the application thread suspended inside add_timer between the wake-up and the append; caught by the application-thread pre-emption added to C12 (the first evaluation ran while that was being written, so the earlier version was not measured)',
+    'C12_7': 'evaluated with the extended C12 only (see C12_6)',
+    'C05_7': 'missed at first (a CA created with bypass_address_claim=True that later loses its address); C05 now has such CAs (contender with a lower NAME after start)',
+    'C01_9': 'missed at first (the caller\'s list is padded in place); the C01 application now sends one list object twice',
+    'C06_6': 'missed at first: C06 did not require an abort from an originator that had sent its last data packet; on J1939-21 that wait is for a CTS or the acknowledgement, the exemption now applies to J1939-22 only',
+    'C10_8': 'missed at first (a session number released twice: by the abort handler and by the job thread); C10 now submits two messages the moment the stack has processed a peer\'s abort, before the job thread\'s next pass',
+    'C03_5': 'reported with exit code 2 at first: the stack handed send_message a data value of 256 and the simulated port raised from its own conversion; now violation clause illegal-frame',
+    'C01_8': 'caught by C08 at first; since application calls can be parked at a source line also by C01',
+    'C09_8': 'NOT CAUGHT: needs the receiving thread suspended between two statements of a handler while the job thread is awake; reception runs in scheduler context in this simulator and no property quantifies over that schedule (DESIGN 10, 12.9)',
+    'C09_10': 'NOT CAUGHT: needs a responder that re-requests an earlier segment with a CTS, a freedom the reference peer does not use and that neither C03 nor C09 lists among the peer\'s choices (DESIGN 10, 12.9)',
 }
 rows = []
 for d in sorted(os.listdir(S)):
